@@ -91,6 +91,33 @@ def window_rules(ctx, f, watched, thr="this->threshold_", who=""):
     return fl, key
 
 
+def recorded_on_every_exit(ctx, f, fld, src):
+    """fld = src is executed on every path to a return: by a scope guard armed on that path or by a direct assignment."""
+    P, cg = ctx.prog, ctx.cg
+    ev, texts = {}, []
+    lam = {l.usr: l for l in P.lambdas_in(f) if field_writes(l, fld)}
+    for l in lam.values():
+        texts += [l.text(write_rhs(l, w)) for w in field_writes(l, fld)]
+    for e_ in cg.out.get(f.usr, ()):
+        if e_.kind == "scope-exit" and e_.dst in lam:
+            pass
+    for d in f.all("decl"):
+        for v in f.nodes[d].get("vars", []):
+            if "ScopeGuard" in v.get("type", "") and any(x in lam for x in [f.nodes[y].get("usr") for y in f.walk(v.get("init", -1)) if v.get("init", -1) is not None and v.get("init", -1) >= 0] if x):
+                ev.setdefault(d, []).append(("set", "recorded"))
+    if not ev:
+        # fall back: any scope guard declaration when exactly the guard's closure writes the field
+        for d in f.all("decl"):
+            if lam and any("ScopeGuard" in v.get("type", "") for v in f.nodes[d].get("vars", [])):
+                ev.setdefault(d, []).append(("set", "recorded"))
+    for w in field_writes(f, fld):
+        texts.append(f.text(write_rhs(f, w)))
+        ev.setdefault(w, []).append(("set", "recorded"))
+    fl = Flow(P, f, events=ev, cg=cg)
+    allexits = all(all("recorded" in st.must for st in e[3].values()) for e in fl.exits() if e[0] in ("return", "fallthrough"))
+    return bool(texts) and all(t == src for t in texts) and allexits, texts
+
+
 def run(ctx):
     P, cg = ctx.prog, ctx.cg
     # ------------------------------------------------ the three windowed detectors
@@ -145,11 +172,8 @@ def run(ctx):
                 ok = True
         texts = [l.text(write_rhs(l, w)) for l in lam for w in field_writes(l, fld)]
         if f is prb:
-            fg = Flow(P, f, events={}, cg=cg)
-            gd = [d for d in f.all("decl") if any("ScopeGuard" in v.get("type", "") for v in f.nodes[d].get("vars", []))]
-            fgg = Flow(P, f, events={d: [("set", "guard")] for d in gd}, cg=cg)
-            allexits = all(all("guard" in st.must for st in e[3].values()) for e in fgg.exits() if e[0] in ("return", "fallthrough"))
-            ctx.check(ok and texts == [src] and allexits, who + ":last-sample-recorded-on-every-exit", "must_follow", f.loc(), "the last sample is recorded on every exit",
+            okr, texts = recorded_on_every_exit(ctx, f, fld, src)
+            ctx.check(okr, who + ":last-sample-recorded-on-every-exit", "must_follow", f.loc(), "the last sample is recorded on every exit",
                       "last_pressure_ is not updated on every exit (writes: %s)" % texts)
             # the fast-fall test reads the PREVIOUS sample: the guard runs at exit, after the test
     # ------------------------------------------------ memory_reclaim
@@ -179,12 +203,16 @@ def run(ctx):
         le = any(k == "(this->duration_ < diff)" and p is False for k, p in g)
         gt = any(k == "(this->duration_ < diff)" and p is True for k, p in g)
         ctx.check((c == "CONTINUE" and le) or (c == "STOP" and gt), "memory_reclaim:return-table:" + str(c), "return_table", mr.loc(r), "CONTINUE iff age <= duration", "%s returned under %s" % (c, sorted(g, key=str)))
-    lam = [l for l in P.lambdas_in(mr) if field_writes(l, "last_pgscan_")]
-    texts = [l.text(write_rhs(l, w)) for l in lam for w in field_writes(l, "last_pgscan_")]
-    gd = [d for d in mr.all("decl") if any("ScopeGuard" in v2.get("type", "") for v2 in mr.nodes[d].get("vars", []))]
-    fgg = Flow(P, mr, events={d: [("set", "guard")] for d in gd}, cg=cg)
-    allexits = all(all("guard" in st.must for st in e[3].values()) for e in fgg.exits() if e[0] in ("return", "fallthrough"))
-    ctx.check(texts == ["pgscan"] and allexits, "memory_reclaim:pgscan-recorded-on-every-exit", "must_follow", mr.loc(), "the pgscan sum is recorded on every exit", "last_pgscan_ not updated on every exit: " + str(texts))
+    okr, texts = recorded_on_every_exit(ctx, mr, "last_pgscan_", "pgscan")
+    ctx.check(okr, "memory_reclaim:pgscan-recorded-on-every-exit", "must_follow", mr.loc(), "the pgscan sum is recorded on every exit",
+              "last_pgscan_ is not set to this tick's sum on every exit (writes: %s): it stops being the previous tick's value, so 'pgscan grew' is "
+              "judged against an older sample" % texts)
+    # a direct assignment must come after the growth comparison (a scope guard runs at exit anyway)
+    for w in field_writes(mr, "last_pgscan_"):
+        cmpn = [i for i, n_ in enumerate(mr.nodes) if n_["k"] == "bin" and n_.get("op") in ("<", ">") and "last_pgscan_" in mr.text(i) and mr.pos_of(i) is not None]
+        fo = Flow(P, mr, events={c: [("set", "compared")] for c in cmpn}, cg=cg)
+        ctx.check(bool(cmpn) and fo.must(w, "compared"), "memory_reclaim:record-after-comparison", "order", mr.loc(w), "the previous sample is overwritten only after it was compared",
+                  "last_pgscan_ is overwritten before the growth comparison reads it")
     # the comparison uses the previous sample: the scope guard is armed before the comparison but runs at exit
     for l in loop_over(mr, "cgroups_"):
         sums = local_writes(mr, "pgscan")
